@@ -678,7 +678,7 @@ def run(ctx):
     try:
         for case in CORPUS:
             one_case(ctx, model, case)
-        for i in range(ctx.n(250, 3000)):
+        for i in range(ctx.n(250, 2000)):
             one_case(ctx, model, gen_case(ctx.rng("case", i)))
         try:
             from harness.common import c09_batch  # noqa
@@ -688,7 +688,7 @@ def run(ctx):
         if have_batch:
             for case in CORPUS:
                 one_case(ctx, None, case, batch=True)
-            for i in range(ctx.n(120, 1500)):
+            for i in range(ctx.n(120, 1000)):
                 one_case(ctx, None, gen_case(ctx.rng("batch", i)), batch=True)
     finally:
         if model is not None:
